@@ -47,8 +47,16 @@ func evConst(k *ssa.Const) (interface{}, bool) {
 	return nil, false
 }
 
+// evalOracle, when set, answers comparisons between two symbols (an ordinate against another): it makes the
+// evaluator enumerate a function's behaviour over the truth values of such comparisons.
+type evalOracle func(op token.Token, l, r evSym) (bool, bool)
+
 // evalPure runs fn on args (int64, bool or evSym).  outcome is "return" or "panic".
 func evalPure(fn *ssa.Function, args []interface{}, depth int) (results []interface{}, outcome string, err error) {
+	return evalPureWith(fn, args, depth, nil)
+}
+
+func evalPureWith(fn *ssa.Function, args []interface{}, depth int, oracle evalOracle) (results []interface{}, outcome string, err error) {
 	if depth > 4 || len(fn.Blocks) == 0 || len(args) != len(fn.Params) {
 		return nil, "", fmt.Errorf("cannot evaluate %s", fn.Name())
 	}
@@ -209,6 +217,12 @@ func evalPure(fn *ssa.Function, args []interface{}, depth int) (results []interf
 							st.vals[x] = lv != rv
 						}
 					}
+				case evSym:
+					if rv, ok := r.(evSym); ok && oracle != nil {
+						if ans, ok := oracle(x.Op, lv, rv); ok {
+							st.vals[x] = ans
+						}
+					}
 				}
 			case *ssa.Call:
 				if callee := x.Call.StaticCallee(); callee != nil && len(callee.Blocks) > 0 && core.IsModPath(core.FuncPkgPath(callee)) {
@@ -222,7 +236,7 @@ func evalPure(fn *ssa.Function, args []interface{}, depth int) (results []interf
 						cargs = append(cargs, v)
 					}
 					if okArgs {
-						res, oc, err := evalPure(callee, cargs, depth+1)
+						res, oc, err := evalPureWith(callee, cargs, depth+1, oracle)
 						if err == nil && oc == "panic" {
 							return nil, "panic", nil
 						}
